@@ -5,9 +5,12 @@ package api
 import (
 	"context"
 
+	"github.com/basekick-labs/arc/internal/auth"
 	"github.com/basekick-labs/arc/internal/ingest"
 	zz "github.com/basekick-labs/arc/internal/zzverif"
 	"github.com/basekick-labs/arc/pkg/models"
+	"github.com/gofiber/fiber/v2"
+	"github.com/rs/zerolog"
 )
 
 type c32Unknown struct{ Measurement string }
@@ -60,4 +63,62 @@ func VerifC32Checked() {
 		}
 	}
 	zz.Reach("end")
+}
+
+// ---- the per-measurement write check ----
+
+type c32Asked struct {
+	db, meas, perm string
+	allowed        bool
+}
+
+// c32Checker: an RBAC evaluator that answers every (database, measurement, permission)
+// question with an arbitrary verdict - an empty measurement included, which the real
+// evaluator reads as "no measurement filter" - and records what it was asked.
+type c32Checker struct{ asked []c32Asked }
+
+func (c *c32Checker) IsRBACEnabled() bool { return true }
+func (c *c32Checker) CheckPermission(req *auth.PermissionCheckRequest) *auth.PermissionCheckResult {
+	ok := zz.Bool("allowed_" + req.Database + "_" + req.Measurement + "_" + req.Permission)
+	c.asked = append(c.asked, c32Asked{req.Database, req.Measurement, req.Permission, ok})
+	return &auth.PermissionCheckResult{Allowed: ok}
+}
+func (c *c32Checker) CheckPermissionsBatch(reqs []*auth.PermissionCheckRequest) []*auth.PermissionCheckResult {
+	out := make([]*auth.PermissionCheckResult, len(reqs))
+	for i, r := range reqs {
+		out[i] = c.CheckPermission(r)
+	}
+	return out
+}
+
+func c32TokenInfo(c *fiber.Ctx) *auth.TokenInfo { return &auth.TokenInfo{ID: 7, Name: "t"} }
+
+// VerifC32WriteCheck: CheckWritePermissions lets a write through only if, for every
+// measurement of the request, write permission on exactly that database and measurement
+// was asked for and granted - a grant for another measurement, or for the database without
+// a measurement, does not stand in for it.
+func VerifC32WriteCheck() {
+	db := zz.OneOf("db", "prod", "default")
+	pool := []string{"cpu", "mem", "secrets"}
+	n := 1 + zz.Choice("measurements", 3)
+	var ms []string
+	for i := 0; i < n; i++ {
+		ms = append(ms, pool[zz.Choice("m_"+string(rune('a'+i)), 3)])
+	}
+	ck := &c32Checker{}
+	err := CheckWritePermissions(new(fiber.Ctx), ck, zerolog.Nop(), db, ms)
+	if err == nil {
+		for _, m := range ms {
+			granted := false
+			for _, a := range ck.asked {
+				if a.db == db && a.meas == m && a.perm == "write" && a.allowed {
+					granted = true
+				}
+			}
+			zz.Assert(granted, "a write was let through although write permission for one of its measurements was never asked for and granted")
+		}
+		zz.Reach("allowed")
+	} else {
+		zz.Reach("denied")
+	}
 }
